@@ -20,7 +20,8 @@ func init() {
 			"C16.5 (=C02.2) inbound connections are registered only for permitted peers; " +
 			"C16.6 the two copies (io.Copy, or a hand-written relay loop shown to be a faithful copier: reads its source only, writes exactly buf[:n] of the read of the same iteration, and writes them before it looks at the read error) connect the peer connection obtained from GetTCPConnection and the client's data connection in opposite directions, each in its own goroutine, and both connections are closed after the first copy ends; " +
 			"C16.7 ErrDupeTCPConnection is answered 446 and ErrTCPConnectionTimeoutOrFailure 447; " +
-			"C16.8 isDupeTCPConnection compares the remote address of every registered connection of the allocation (no iteration is skipped).",
+			"C16.8 isDupeTCPConnection compares the remote address of every registered connection of the allocation (no iteration is skipped); " +
+			"C16.9 (=C10.4) the client reads the ConnectionBind reply exactly, so that the first peer byte after it is the first byte the user reads.",
 		NotCovered: "byte-stream integrity of io.Copy; the timing of the 30 s deadline; what the relay generator's AllocateConn does.",
 		Run:        runC16,
 	})
@@ -710,6 +711,11 @@ func runC16(c *Ctx) {
 			c.Bad("C16.8", "allocation", "loop", "-", "no loop over tcpConnections comparing remote addresses is left: the duplicate test is gone")
 		}
 	}
+
+	// ---- C16.9 (=C10.4, client half): the stream handed to the user starts right after the
+	// ConnectionBind reply — peer bytes that follow it in the same segment are not swallowed
+	c.Rule("C16.9", "client side of the pipe: BindConnection takes the ConnectionBind reply off the data connection by io.ReadFull of exactly the header and then exactly the declared body, and hands the connection to no other reader (=C10.4)", 2)
+	ruleBindReplyExact(c, "C16.9")
 }
 
 // connRole classifies a connection value in handleConnectionBindRequest: "peer" (result of
